@@ -204,6 +204,9 @@ def _run_node_job(which: str, kind: str) -> Callable[[], Record]:
         def s_apply(interp: Any, args: List[Any], kwargs: Dict[str, Any]) -> Any:
             rec.append(args)
             t = args[1]
+            if which == "transforms" and len(args) > 2 and isinstance(args[2], dict):
+                # contract of ScaleTrackingAutogradFunction (verified separately): node_meta["metrics"] = Metrics(t)
+                args[2]["metrics"] = ("Metrics of", t)
             r = SymTensor(t.shape, t.dtype, t.val, tz.LinNode([t.node], [z3.RealVal(1)], [None]))
             r.attrs["__tracked__"] = True
             return r
@@ -234,6 +237,7 @@ def _run_node_job(which: str, kind: str) -> Callable[[], Record]:
                 v = leaf(ctx, "out", Shape([Run(ctx, "a")]))
                 n0 = g.add("call_function", "producer", (), {}, name="producer")
                 n0.meta["__value__"] = v
+                n._args = (n0,)  # the no-op node reads the producer
             else:
                 v = (3, "not a tensor")
             n.meta["__value__"] = v
@@ -245,8 +249,12 @@ def _run_node_job(which: str, kind: str) -> Callable[[], Record]:
                 if kind == "alias_of_tracked":
                     tracked = it.call(it.getattr(obj, "run_node"), [n0], {})
                     n.meta["__value__"] = tracked
+                    # ASSUMED fx.Interpreter.run: env[node] = run_node(node) for every node already executed
+                    obj.attrs["env"] = {n0: tracked}
+                    n0_metrics = n0.meta.get("metrics")
                     rec.clear()
                     out = it.call(it.getattr(obj, "run_node"), [n], {})
+                    n.meta["__producer_metrics__"] = n0_metrics
                     return out, tracked, n, obj
                 out = it.call(it.getattr(obj, "run_node"), [n], {})
                 return out, v, n, obj
@@ -266,6 +274,8 @@ def _run_node_job(which: str, kind: str) -> Callable[[], Record]:
                 ctx.oblige(f"{tag}:the_tracked_tensor_is_what_every_consumer_sees(returned value){cs}", isinstance(out, SymTensor) and out.attrs.get("__tracked__") is True)
                 if which == "transforms":
                     ctx.oblige(f"{tag}:metrics_are_recorded_in_this_nodes_meta{cs}", len(rec) == 1 and rec[0][2] is n.meta)
+                    if kind == "alias_of_tracked":
+                        ctx.oblige(f"{tag}:node_has_its_own_metrics_not_the_producers{cs}", n.meta.get("metrics") is not None and n.meta.get("metrics") is not n.meta.get("__producer_metrics__"))
                 else:
                     sc = obj.attrs.get("scales", {})
                     ctx.oblige(f"{tag}:scale_pair_registered_under_the_node_name{cs}", len(rec) == 1 and sc.get(n.name) is rec[0][2])
